@@ -61,14 +61,16 @@ type actJob struct {
 
 type actWorld struct {
 	gpuDim bool // quantities are whole GPUs (else milli-cpu); the other dimension is not requested
-	vm     *resource_info.ResourceVectorMap
-	nodes  []*node_info.NodeInfo
-	ncpu   []float64
-	queues []actQueue
-	jobs   []*actJob
-	cache  *stCache
-	ssn    *framework.Session
-	pp     *proportionPlugin
+	// milliCpu: in a GPU world every pod also asks 100 milli-cpu (never scarce); a job named here asks this much instead
+	milliCpu map[string]float64
+	vm       *resource_info.ResourceVectorMap
+	nodes    []*node_info.NodeInfo
+	ncpu     []float64
+	queues   []actQueue
+	jobs     []*actJob
+	cache    *stCache
+	ssn      *framework.Session
+	pp       *proportionPlugin
 }
 
 func (w *actWorld) addNode(name string, cpu float64) {
@@ -86,7 +88,11 @@ func (w *actWorld) addJob(name, queue string, preemptible bool, prio int32, crea
 	for i := range cpus {
 		var t *pod_info.PodInfo
 		if w.gpuDim {
-			t = vs.NewTask(vs.Name(name+"-t", i), name, "", 100, 0, vs.GpuSpec{Whole: cpus[i]}, statuses[i], nodes[i], w.vm)
+			mc := 100.0
+			if v, ok := w.milliCpu[name]; ok {
+				mc = v
+			}
+			t = vs.NewTask(vs.Name(name+"-t", i), name, "", mc, 0, vs.GpuSpec{Whole: cpus[i]}, statuses[i], nodes[i], w.vm)
 		} else {
 			t = vs.NewTask(vs.Name(name+"-t", i), name, "", cpus[i], 0, vs.GpuSpec{}, statuses[i], nodes[i], w.vm)
 		}
@@ -276,11 +282,19 @@ func actAllocateWorld(o actOpts) *actWorld {
 	return w
 }
 
-// symbolicFairShares gives every queue a cpu fair share that the (skipped) division could have
-// produced: at least min(deserved, request capped by limit) and at most the capped request; children
-// within their parent's share. Memory and GPU are requested by nobody here.
+// symbolicFairShares gives every queue a fair share that the (skipped) division could have produced
+// (the contract C09 states, checked on the real division by C09's kernels): at least
+// lower = min(deserved, request capped by limit) and at most the capped request; and among the
+// children of one parent (the top-level queues divide the cluster's total) the surplus handed out on
+// top of the quota step never exceeds what the quota step left: sum(fs - lower) <= max(0, P - sum lower).
+// Oversubscribed quotas (sum lower > P) are therefore admitted, as in the real division. Memory and
+// the dimension nobody requests get no share.
 func (w *actWorld) symbolicFairShares(bits int) {
-	fsOf := map[string]float64{}
+	fsOf, lowerOf := map[string]float64{}, map[string]float64{}
+	total := 0.0
+	for _, c := range w.ncpu {
+		total += c
+	}
 	for _, q := range w.queues {
 		attrs := w.pp.queues[common_info.QueueID(q.name)]
 		fs := vr.AnyFloatNat("fairShare."+q.name, bits+3)
@@ -292,12 +306,20 @@ func (w *actWorld) symbolicFairShares(bits int) {
 		if share.MaxAllowed >= 0 && share.MaxAllowed < capped {
 			capped = share.MaxAllowed
 		}
+		// the quota step: an unlimited (-1) quota stands for everything the parent has to divide
+		deserved := share.Deserved
+		if deserved < 0 {
+			deserved = total
+			if q.parent != "" {
+				deserved = fsOf[q.parent] // parents are listed before their children
+			}
+		}
 		lower := capped
-		if share.Deserved >= 0 && share.Deserved < lower {
-			lower = share.Deserved
+		if deserved < lower {
+			lower = deserved
 		}
 		vr.Assume(fs >= lower && fs <= capped)
-		fsOf[q.name] = fs
+		fsOf[q.name], lowerOf[q.name] = fs, lower
 		if w.gpuDim {
 			w.setFS(attrs, rs.GpuResource, fs)
 			w.setFS(attrs, rs.CpuResource, attrs.CPU.Request)
@@ -307,17 +329,28 @@ func (w *actWorld) symbolicFairShares(bits int) {
 		}
 		w.setFS(attrs, rs.MemoryResource, 0)
 	}
-	for _, p := range w.queues {
-		sum, has := 0.0, false
+	parents := []actQueue{{name: ""}}
+	parents = append(parents, w.queues...)
+	for _, p := range parents {
+		surplus, quotas, has := 0.0, 0.0, false
 		for _, c := range w.queues {
 			if c.parent == p.name {
-				sum += fsOf[c.name]
+				surplus += fsOf[c.name] - lowerOf[c.name]
+				quotas += lowerOf[c.name]
 				has = true
 			}
 		}
-		if has {
-			vr.Assume(sum <= fsOf[p.name])
+		if !has {
+			continue
 		}
+		left := total - quotas
+		if p.name != "" {
+			left = fsOf[p.name] - quotas
+		}
+		if left < 0 {
+			left = 0
+		}
+		vr.Assume(surplus <= left)
 	}
 }
 
